@@ -18,6 +18,14 @@ import (
 	"github.com/vektah/gqlparser/v2/parser"
 	"github.com/vektah/gqlparser/v2/validator"
 
+	"encoding/json"
+	"github.com/99designs/gqlgen/graphql"
+	"github.com/99designs/gqlgen/graphql/handler"
+	"github.com/99designs/gqlgen/graphql/handler/transport"
+	"github.com/gorilla/websocket"
+	"net/http"
+	"net/http/httptest"
+	"sync/atomic"
 	"verif/internal/deferm"
 	"verif/internal/diffrun"
 	"verif/internal/drive"
@@ -63,6 +71,8 @@ func main() {
 			defer func() { <-sem }()
 			env := univ.Bind(registry.Probes[name]())
 			srv := drive.NewServer(env).WithPresenter()
+			wsT := newWSTransport(env)
+			defer wsT.close()
 			omit, _ := env.Probe.Options["nullable_input_omittable"].(bool)
 			for i := 0; i < nOps; i++ {
 				opSeed := seed*3000017 + int64(i)
@@ -87,6 +97,11 @@ func main() {
 					continue
 				}
 				runOp(rep, env, srv, name, opSeed, op, doc, omit, &mu, &evals)
+				if i%2 == 1 && i%8 != 7 {
+					// the same operation through the websocket transport: it relays every payload of
+					// the response function, the client merges them like any other payload sequence
+					wsOp(rep, env, wsT, name, opSeed, op, doc, omit, &mu, &evals)
+				}
 			}
 		}(name)
 	}
@@ -256,5 +271,103 @@ func runOp(rep *ev.Reporter, env *univ.Env, srv *drive.Server, name string, opSe
 				}
 			}
 		}
+	}
+}
+
+// ---------------------------------------------------------------------------------------------
+// the payload sequence as a websocket client sees it
+
+type wsTransport struct {
+	ts   *httptest.Server
+	runs sync.Map
+	n    atomic.Int64
+}
+
+func newWSTransport(env *univ.Env) *wsTransport {
+	w := &wsTransport{}
+	h := handler.New(env.ES)
+	h.AddTransport(transport.Websocket{Upgrader: websocket.Upgrader{CheckOrigin: func(*http.Request) bool { return true }}})
+	h.SetRecoverFunc(func(ctx context.Context, r any) error { return fmt.Errorf("PANIC:%v", r) })
+	w.ts = httptest.NewServer(http.HandlerFunc(func(rw http.ResponseWriter, r *http.Request) {
+		if v, ok := w.runs.Load(r.Header.Get("X-Run")); ok {
+			r = r.WithContext(univ.WithRun(r.Context(), v.(*univ.Run)))
+		}
+		h.ServeHTTP(rw, r)
+	}))
+	return w
+}
+
+func (w *wsTransport) close() {
+	done := make(chan struct{})
+	go func() { w.ts.CloseClientConnections(); w.ts.Close(); close(done) }()
+	select {
+	case <-done:
+	case <-time.After(5 * time.Second):
+	}
+}
+
+func wsOp(rep *ev.Reporter, env *univ.Env, w *wsTransport, name string, opSeed int64, op *opgen.Op, doc *ast.QueryDocument, omit bool, mu *sync.Mutex, evalsP *int64) {
+	vars := diffrun.DecodeVars(op.Vars)
+	p := univ.SeedPlan{Seed: uint64(opSeed), MaxList: 3, NullPermille: 20, SchedMode: 2}
+	want := ref.Execute(env, &p, doc, op.OpName, diffrun.CopyJSON(vars), ref.Options{Omittable: omit})
+	if want.RequestError != "" {
+		return
+	}
+	id := fmt.Sprint("r", w.n.Add(1))
+	w.runs.Store(id, &univ.Run{Plan: &p})
+	defer w.runs.Delete(id)
+	d := websocket.Dialer{Subprotocols: []string{"graphql-transport-ws"}}
+	c, _, err := d.Dial("ws"+strings.TrimPrefix(w.ts.URL, "http"), http.Header{"X-Run": []string{id}})
+	if err != nil {
+		rep.Inconclusive("websocket dial: " + err.Error())
+		return
+	}
+	defer c.Close()
+	c.WriteJSON(map[string]any{"type": "connection_init"})
+	payload := map[string]any{"query": op.Query, "operationName": op.OpName}
+	if len(vars) > 0 {
+		payload["variables"] = vars
+	}
+	c.WriteJSON(map[string]any{"type": "subscribe", "id": "1", "payload": payload})
+	c.SetReadDeadline(time.Now().Add(30 * time.Second))
+	got := &drive.Real{}
+	completed := false
+	for i := 0; i < 4000 && !completed; i++ {
+		var m struct {
+			Type    string          `json:"type"`
+			ID      string          `json:"id"`
+			Payload json.RawMessage `json:"payload"`
+		}
+		if err := c.ReadJSON(&m); err != nil {
+			got.TimedOut = true
+			break
+		}
+		switch m.Type {
+		case "next":
+			var resp graphql.Response
+			if json.Unmarshal(m.Payload, &resp) != nil {
+				rep.Violate("", map[string]any{"why": "websocket next payload is not a GraphQL response", "payload": string(m.Payload), "query": op.Query})
+				return
+			}
+			got.Payloads = append(got.Payloads, drive.PayloadOf(&resp))
+		case "complete", "error":
+			completed = true
+		}
+	}
+	mu.Lock()
+	*evalsP++
+	mu.Unlock()
+	cid := diffrun.Case{Probe: name, OpSeed: opSeed, Kind: "query", Plan: p, Query: op.Query, OpName: op.OpName, Vars: op.Vars, Extra: map[string]any{"transport": "websocket"}}
+	if got.TimedOut {
+		rep.Inconclusive("websocket payload sequence did not end within the watchdog: " + op.Query)
+		return
+	}
+	rep.Count("websocket_operations", 1)
+	rep.Count("websocket_payloads", int64(len(got.Payloads)))
+	sig, why, info := deferm.Judge(want, got)
+	if why != "" {
+		rep.Violate(sig, map[string]any{"case": cid, "why": "over the websocket transport: " + why, "payloads": deferm.Describe(got), "plain": want.Data.Render()})
+	} else if info.Incremental > 0 {
+		rep.Count("websocket_operations_with_incremental_payloads", 1)
 	}
 }
